@@ -44,3 +44,5 @@ def run(ck):
     routes.who_writes_codes(ck, "C02.R1")               # "every write": no route stores codes without the notifications of set_val
     conv.scaled_value_type(ck, "C17.R8")
     fresh.no_hidden_state(ck, "C20.R8")                  # results depend on the documented state only (no caches / memos)
+    conv.rescaling_siblings(ck, "C10.R1", "C10.R2")     # re-scaling routes hand exact codes to set_val, where inaccuracy is decided
+    fresh.reset_only_by_user(ck, "C04.R7")
